@@ -68,6 +68,7 @@ def mk_stream(c, IO):
     s._ssl_connect_future = None
     s._close_callback = None
     s._write_buffer = object()
+    s._total_write_index, s._total_write_done_index = 0, 0
     s._read_buffer = bytearray()
     s._read_buffer_size = 0
     s._user_read_buffer = False
@@ -136,6 +137,11 @@ def u_signal_closed(c):
         futs["connect"] = s._connect_future = _fut_in(c, "connect_future", [PENDING, CANCELLED])
     if has_ssl:
         futs["ssl"] = s._ssl_connect_future = _fut_in(c, "ssl_connect_future", [PENDING, CANCELLED, RESULT, EXC])
+    if nwrites:
+        # _handle_write closes on a transport error *before* it resolves the futures of the chunks it had already flushed, so a queued future may
+        # lie at or below the flushed index when the close is signalled
+        s._total_write_index = 30
+        s._total_write_done_index = c.choose("flushed-up-to", [0, 10, 15, 25])
     fl = list(futs.values())
     for i in range(len(fl)):
         for j in range(i + 1, len(fl)):
